@@ -195,6 +195,34 @@ def _snapshot():
     return _SNAP[0]
 
 
+STATUS_CODES = [0, 1, 2000, 2003, 2019, 2020, 13504, 15000, 15500, 15501, 15502, 15503, 15504, 15505, 15506, 15507, 15508, 15510, 15511, 15512, 15513, 15514, 16500, 3000]
+
+
+def _status_worker(names):
+    """Every class that carries a STATUS, with every well-known status code x severity and no MESSAGE: the model says
+    what the document says - no more (no explanatory text made up for the reader's benefit)."""
+    H.setup_path()
+    s = H.Stats()
+    U = M.universe()
+    for name in names:
+        cls = U[name]
+        if not any(a == "status" and k == "sub" for a, k, t in M.decl(cls)):
+            continue
+        for code in STATUS_CODES:
+            for sev in ("INFO", "WARN", "ERROR"):
+                try:
+                    d = M.minimal(cls, with_attr="status")
+                except Exception as e:
+                    raise H.HarnessError(f"minimal({name}, status): {e!r}")
+                d["kw"]["status"] = {"cls": "STATUS", "kw": {"code": ["int", code], "severity": ["tok", sev]}, "list": []}
+                _to_lex(d)
+                case = {"doc": d, "sgml": bool(code % 2), "style": code}
+                s.case(case, nontrivial=True, labels=["status sweep"])
+                for k, dd in check_case(case):
+                    s.fail("status-sweep/" + k, case, f"{name} status {code}/{sev}: {dd}")
+    return s
+
+
 def _to_lex(desc):
     """minimal() yields plain-mode scalars; give them the lexical-description shape check_case expects."""
     def conv(v):
@@ -226,6 +254,7 @@ def _to_lex(desc):
 def run(ctx):
     names = sorted(M.universe())
     ctx.pmap(_token_worker, [(names[i::32], ctx.scale(4, 1)) for i in range(32)])
+    ctx.pmap(_status_worker, [names[i::16] for i in range(16)])
     n = ctx.scale(15, 200)
     shards = [names[i::48] for i in range(48)]
     ctx.pmap(_worker, [(sh, n, ctx.sub_seed("cls")) for sh in shards])
